@@ -54,6 +54,8 @@ pub fn content(name: &str, version: u16) -> Option<Node> {
             b.modified = 131_277_024_009_999_999; // 2017, 999999.9 microseconds into its second
             vec![a, b, stream("s", 70, 0)]
         }
+        // "." and ".." are legal MS-CFB names (2.6.1 forbids only / \\ : !)
+        "dot-names" => vec![stream(".", 10, 0), stream("..", 20, 0), stream("x", 30, 0)],
         "three-minis" => vec![stream("m1", 130, 0), stream("m2", 64, 0), stream("m3", 1, 0)],
         "nested" => vec![storage("d", vec![storage("e", vec![stream("f", 100, 9)]), stream("g", 5000, 0)]), stream("h", 3, 0)],
         "empty" => vec![],
@@ -71,7 +73,7 @@ pub fn content(name: &str, version: u16) -> Option<Node> {
 
 pub const CONTENTS: [&str; 10] = ["empty", "two-mini", "one-big", "three-mixed", "four-sizes", "four-names", "three-minis", "nested", "two-fat", "long-names"];
 /// Contents of the layout enumeration (C04): the above plus two whose sibling order hinges on case folding.
-pub const LAYOUT_CONTENTS: [&str; 13] = ["empty", "two-mini", "one-big", "three-mixed", "four-sizes", "four-names", "three-minis", "nested", "punct-names", "cased-names", "two-fat", "long-names", "old-times"];
+pub const LAYOUT_CONTENTS: [&str; 14] = ["empty", "two-mini", "one-big", "three-mixed", "four-sizes", "four-names", "three-minis", "nested", "punct-names", "cased-names", "two-fat", "long-names", "old-times", "dot-names"];
 
 #[derive(Clone, Debug, Serialize, Deserialize)]
 pub struct LayoutCase {
@@ -385,7 +387,9 @@ pub fn run_case(c: &LayoutCase) -> Vec<(String, String)> {
                         }
                     }
                 }
-                if !deviated {
+                // (names "." and ".." cannot be spelled in a path - neither by the model - so for that content
+                // only the dump above, which reads every stream through the path its own listing reports, is judged)
+                if !deviated && c.content != "dot-names" {
                     // lookups through the foreign sibling trees
                     let model = Model { root: root.clone(), pin: ops::pin_filetime() };
                     for (p, _) in root.all_paths() {
